@@ -114,7 +114,7 @@ Print Assumptions C12_shift.
 Theorem C12_multiparts_rebuild : forall sep n cb c r, (n =? 0)%Z = false -> (n =? 1)%Z = false ->
   In r (snd (invoke (ActionMultiPartsN sep n cb) c)) ->
   let '(done, parts, cur) := mpn_split sep n (cvalue c) in
-  exists y, In y (snd (invoke (cb (mkCtx cur (cargs c) parts)) (mkCtx cur (cargs c) parts))) /\
+  exists y, In y (snd (invoke (cb (with_vp c cur parts)) (with_vp c cur parts))) /\
             value r = done ++ value y /\ display r = display y /\ description r = description y.
 Proof. exact multiparts_rebuild. Qed.
 Print Assumptions C12_multiparts_rebuild.
@@ -134,6 +134,6 @@ Print Assumptions C12_batch.
 Example C12_example :
   let e := EUsage (B [111]) (EBatch [EMultiPartsN (B [44]) (-1) (EValues [B [97]; B [98]]) (EPrefix (B [120]) (EUsage (B [105]) (EValues [B [99]])));
                                      EMessage (B [109])]) in
-  let r := invoke (denote false (fun _ _ => false) e) (mkCtx (B [97;44;120]) [] []) in
+  let r := invoke (denote false (fun _ _ => false) e) (mkCtx (B [97;44;120]) [] [] []) in
   (map value (snd r), usage (fst r), messages (fst r), nospace (fst r)) = ([B [97;44;120;99]], B [111], [B [109]], B [44]).
 Proof. vm_compute. reflexivity. Qed.
